@@ -16,6 +16,7 @@
 """Service for handling deep config."""
 
 import os
+import sys
 from typing import Any, List, Dict, Tuple, Optional, Generator
 
 from deep import logging
@@ -177,7 +178,9 @@ class ConfigService:
         :return: True if add frame, else False
         """
         in_app_include = self._as_prefix_list(self.IN_APP_INCLUDE)
-        in_app_exclude = self._as_prefix_list(self.IN_APP_EXCLUDE)
+        # the python installation is never part of the application, wherever the rest of the list comes from (the
+        # environment form of the setting has it appended, a list given in code replaces that)
+        in_app_exclude = self._as_prefix_list(self.IN_APP_EXCLUDE) + [sys.exec_prefix]
 
         for path in in_app_exclude:
             if filename.startswith(path):
